@@ -182,10 +182,14 @@ static void srv_soa_authority(sdns_out_t *o, uint32_t serial, uint32_t soa_ttl, 
 }
 
 /* default server-side cookie: 8 bytes derived from secret and client cookie */
-static void srv_default_cookie(const vsrv_t *s, const sdns_query_t *q, uint8_t *ck, size_t *cklen)
+static void srv_default_cookie(vsrv_t *s, const sdns_query_t *q, uint8_t *ck, size_t *cklen)
 {
   uint64_t h = vh_fnv(VH_FNV_INIT, s->ck_secret, 8);
   h          = vh_fnv(h, q->cookie, 8);
+  if (s->ck_mode == 2) {
+    /* rotating server cookie: a fresh one in every response */
+    h = vh_fnv_u64(h, (uint64_t)++s->ck_counter);
+  }
   memcpy(ck, q->cookie, 8);
   memcpy(ck + 8, &h, 8);
   *cklen = 16;
@@ -485,7 +489,7 @@ static void srv_receive(int srvidx, int fd, int is_tcp, const uint8_t *msg, size
   /* cookies */
   if (srv_cookie_hook) {
     srv_cookie_hook(srvidx, &q, is_tcp, &pl.action, ck, &cklen);
-  } else if (s->ck_mode == 1 && q.has_cookie && q.cookie_len >= 8 && !is_tcp) {
+  } else if (s->ck_mode >= 1 && q.has_cookie && q.cookie_len >= 8 && !is_tcp) {
     srv_default_cookie(s, &q, ck, &cklen);
   }
   if (tx) {
